@@ -458,7 +458,11 @@ func (v Value) opMul(b Value) Value {
 	case TypeUint8:
 		return Value{t: t, num: float64(byte(v.num) * byte(b.num))}
 	default:
-		return Value{t: untypedInt, num: v.num * b.num}
+		n := v.num * b.num
+		if n == 0 {
+			n = 0 // an integer has no negative zero: 0 * -1 (the negation of 0) is 0
+		}
+		return Value{t: untypedInt, num: n}
 	}
 }
 func (v Value) opDiv(b Value) Value {
